@@ -427,20 +427,51 @@ def run_pipeline(case):
     if ptx_json.get("bpt") is not None:
         hdr.append(f"HiC MAP RESOLUTION: {ptx_json['bpt']} bp/texel")
     ptx = A.assembly_to_obj({"header": hdr, "scaffolds": ptx_json["scaffolds"]}, "pretext")
-    if case.get("pre_run"):
-        # an earlier remap in the same process against the SAME loaded input (a Target-mode map that shows
-        # only the first scaffold): it must leave nothing behind on the input objects
+    # HISTORY: what happened earlier in the same process, on the same loaded objects, must leave nothing behind.
+    #   target_first  an earlier Target-mode remap (showing only the first scaffold) on the same INDEXED input
+    #   flipped_first an earlier remap of the same map with every piece on the opposite strand, untagged
+    #   retag         the Pretext scaffolds were first remapped untagged, then re-tagged IN PLACE (rows[i] = ...)
+    history = case.get("history") or ("target_first" if case.get("pre_run") else None)
+    input_asm = None
+    try:
+        input_asm = IndexedAssembly.new_from_assembly(inp)
+    except Exception:
+        pass
+    if history and input_asm is not None:
         try:
-            first = case["input"]["scaffolds"][0]
-            pre = A.assembly_to_obj({"header": ["HiC MAP RESOLUTION: 1.000000 bp/texel"], "scaffolds": [
-                {"name": "Scaffold_1", "rows": [["F", first["name"], 1, max(1, sc_len(first)), 1, ["Painted", "Target"]]]}]}, "pre")
+            if history == "target_first":
+                first = case["input"]["scaffolds"][0]
+                pre = A.assembly_to_obj({"header": ["HiC MAP RESOLUTION: 1.000000 bp/texel"], "scaffolds": [
+                    {"name": "Scaffold_1", "rows": [["F", first["name"], 1, max(1, sc_len(first)), 1, ["Painted", "Target"]]]}]}, "pre")
+            elif history == "flipped_first":
+                pre = A.assembly_to_obj({"header": hdr, "scaffolds": [
+                    {"name": sc["name"], "rows": [r if r[0] == "G" else [r[0], r[1], r[2], r[3], -r[4] if r[4] else 1, []] for r in sc["rows"]]}
+                    for sc in ptx_json["scaffolds"]]}, "pre")
+            else:
+                # the very Pretext objects of the real run, tags stripped for now
+                from tola.assembly.fragment import Fragment as _F
+
+                tagged = [list(sc.rows) for sc in ptx.scaffolds]
+                for sc in ptx.scaffolds:
+                    for i, r in enumerate(sc.rows):
+                        if isinstance(r, _F):
+                            sc.rows[i] = _F(r.name, r.start, r.end, r.strand)
+                pre = ptx
             b0 = BuildAssembly("pre", default_gap=Gap(200, "scaffold"), autosome_prefix="SUPER_")
-            b0.remap_to_input_assembly(pre, IndexedAssembly.new_from_assembly(inp))
-            b0.assemblies_with_scaffolds_fused()
+            try:
+                b0.remap_to_input_assembly(pre, input_asm)
+                b0.assemblies_with_scaffolds_fused()
+            except Exception:
+                pass
+            if history == "retag":
+                for sc, rows in zip(ptx.scaffolds, tagged):
+                    for i, r in enumerate(rows):
+                        sc.rows[i] = r
         except Exception:
             pass
     try:
-        input_asm = IndexedAssembly.new_from_assembly(inp)
+        if input_asm is None:
+            input_asm = IndexedAssembly.new_from_assembly(inp)
         build = BuildAssembly("out", default_gap=Gap(200, "scaffold"), autosome_prefix=case.get("prefix", "SUPER_"))
         build.remap_to_input_assembly(ptx, input_asm)
         out = build.assemblies_with_scaffolds_fused()
